@@ -369,6 +369,66 @@ def masking_and_pipeline(chk, tier, rng):
             chk.harness_error("T=0 masking failure did not reproduce")
 
 
+def completion_on_degenerate_strains(chk, tier, rng):
+    """The calculation completes for mixed shear keys whatever the axial strains: the de-duplication's approximate-equality decisions are
+    forked by the solver (coinciding or nearly coinciding strain fractions -- equal thirds without a lattice block, a = b, ... -- are
+    exactly the paths on which tasks are merged), and the whole pipeline runs on every path."""
+    from fractions import Fraction
+    cases = [["c14"], ["c12", "c46"]]
+    if tier != "quick":
+        cases += [["c15"], ["c56"], ["c13", "c25"], ["c16", "c45"], ["c24", "c34"]]
+    for R in cases:
+        name = "completion%s" % R
+        ctx = new_context()
+        H, K, _ = PC.declare_constants(ctx)
+        duck = PC.make_duck(ctx, 2, 3, 1, n_sym_T=1)
+        strain = symvars("e", (1, 3), lo=Fraction(1, 20), hi=Fraction(9, 10))
+        ex = X.Explorer(max_paths=256, name=name, decision_timeout_ms=4000)
+        t0 = time.time()
+        try:
+            paths, proxy = PL.run_pipeline(duck, strain, R, close_mode="solver", explorer=ex)
+        except (SymError, X.PathBudgetExceeded) as e:
+            chk.inconclusive(name, str(e))
+            continue
+        failing = [p for p in paths if p.exception is not None]
+        undefined = []
+        for p in paths:
+            if p.exception is None:
+                for which in ("iso", "adi"):
+                    for k, a in p.result[which].items():
+                        if any(Sym.of(x).poison for x in numpy.asarray(a, dtype=object).ravel()):
+                            undefined.append((k, which))
+        chk.obligation(name + ": completes with defined values on all %d paths of the task de-duplication (coinciding strain fractions included)" % len(paths),
+                       "unsat" if not failing and not undefined else "sat", seconds=round(time.time() - t0, 1), kind="all-paths",
+                       detail=("%s: %s" % (type(failing[0].exception).__name__, str(failing[0].exception)[:100])) if failing else undefined[:3])
+        if len(paths) > 1:
+            chk.witness(name + ": merge paths reachable", "sat")
+        if failing or undefined:
+            pth = failing[0] if failing else paths[0]
+            v, env = Z.satisfiable([], name=name + ":failing-path-model", conds=pth.path_condition())
+            cands = []
+            if env:
+                cands.append([float(env.get("e_0_%d" % i, 1.0 / 3)) for i in range(3)])
+            cands += [[1.0, 1.0, 1.0], [0.3, 0.3, 0.4], [0.4, 0.3, 0.3], [0.3, 0.4, 0.3]]
+            d = PL.float_duck(2, 3, 1, 2, rng)
+            done = False
+            for e in cands:
+                try:
+                    with numpy.errstate(all="ignore"):
+                        iso, adi, _ = PL.real_pipeline(d, numpy.array([e]), R)
+                    if not all(numpy.all(numpy.isfinite(iso[k])) and numpy.all(numpy.isfinite(adi[k])) for k in R):
+                        chk.violation("pipeline:non-finite-degenerate", "components %s are not finite for axial strains %s" % (R, e), dict(request=R, strain=e))
+                        done = True
+                        break
+                except Exception as ex_:
+                    chk.violation("pipeline:raises-degenerate", "the phonon task pipeline raises %s: %s for request %s with axial strains %s" % (
+                        type(ex_).__name__, str(ex_)[:100], R, e), dict(request=R, strain=e))
+                    done = True
+                    break
+            if not done:
+                chk.harness_error("%s: failing path did not reproduce on the real pipeline" % name)
+
+
 def realness(chk, rng):
     """Concrete (all 15 keys): the eigen-frame the real class computes is a real array (dtype), as is the rotated strain."""
     import cij.core.phonon_contribution.shear as sh
@@ -407,6 +467,7 @@ def main():
     rng = random.Random(seed() + 12)
     kernel_obligations(chk, ns, tier)
     masking_and_pipeline(chk, tier, rng)
+    completion_on_degenerate_strains(chk, tier, rng)
     realness(chk, rng)
     chk.bound(omega_cm1=[W_LO, W_HI], T_K=[T_LO, T_HI], fp="IEEE binary64, round-nearest-even", solver_timeout_s=120)
     for f in EXP_FACTS:
